@@ -54,8 +54,11 @@ def produce(path_kind, d, content, fl="fl1"):
     """a file written by one of dclab's write paths"""
     import dclab
     from dclab import cli
-    from dclab.rtdc_dataset import RTDCWriter
-    n = 8
+    from dclab.rtdc_dataset import RTDCWriter, writer
+    # 13 events; the filtered export and the first split part hold 11: one
+    # more than the (forced) chunk length of 10
+    n = 13
+    writer.CHUNK_SIZE_BYTES = 200
     FEATS = feats_of(content, fl)
     META2 = meta_of(fl)
     ids = list(range(1, n + 1))
@@ -66,7 +69,7 @@ def produce(path_kind, d, content, fl="fl1"):
         if path_kind == "writer":
             return base
         if path_kind == "writer-appended":
-            gen.write_rtdc(out, ids, feats=FEATS, partition=[3, 1, 4])
+            gen.write_rtdc(out, ids, feats=FEATS, partition=[3, 1, 4, 5])
         elif path_kind in ("export", "export-filtered"):
             with dclab.new_dataset(base) as ds:
                 if path_kind == "export-filtered":
@@ -81,9 +84,9 @@ def produce(path_kind, d, content, fl="fl1"):
         elif path_kind == "condense":
             cli.condense(path_in=base, path_out=out)
         elif path_kind == "split-part":
-            parts = cli.split(path_in=base, path_out=d, split_events=5,
+            parts = cli.split(path_in=base, path_out=d, split_events=11,
                               ret_out_paths=True, verbose=False)
-            return parts[1]
+            return parts[0]
         elif path_kind == "join":
             b2 = d / "base2.rtdc"
             gen.write_rtdc(b2, [100 + i for i in ids], feats=FEATS,
